@@ -44,6 +44,38 @@ def main():
             return 1
         print("NOT-REPRODUCED: Krylov floor and autosave floor hold for keyword and backend_options forms")
         return 0
+    if "check_permutable_observables" in ob:
+        # observables whose values depend on the site order and are NOT un-permuted by permute_results:
+        # requesting one must switch optimize_qubit_ordering off
+        import warnings
+        warnings.simplefilter("ignore")
+        from emu_mps import MPSConfig, MPS, MPO
+        import pulser.backend as PB
+        import emu_mps
+        n = 3
+        state = MPS.from_state_amplitudes(eigenstates=("r", "g"), amplitudes={"rgg": 1.0})
+        op = MPO.from_operator_repr(eigenstates=("r", "g"), n_qudits=n, operations=[(1.0, [({"rr": 1.0}, {0})])])
+        cands = []
+        for name, mk in (("Fidelity", lambda: PB.Fidelity(state, evaluation_times=[1.0])),
+                         ("Expectation", lambda: PB.Expectation(op, evaluation_times=[1.0])),
+                         ("StateResult", lambda: PB.StateResult(evaluation_times=[1.0])),
+                         ("EntanglementEntropy", lambda: emu_mps.EntanglementEntropy(mps_site=1, evaluation_times=[1.0]))):
+            try:
+                cands.append((name, mk()))
+            except Exception as e:          # observable not constructible with this pulser: skip
+                print(f"  {name}: not constructed ({type(e).__name__}: {e})")
+        bad = []
+        for name, o in cands:
+            c = MPSConfig(observables=[o, PB.Occupation(evaluation_times=[1.0])], optimize_qubit_ordering=True, log_level=50)
+            print(f"  {name}: optimize_qubit_ordering={c.optimize_qubit_ordering}")
+            if c.optimize_qubit_ordering:
+                bad.append(name)
+        if bad:
+            print(f"REPRODUCED: MPSConfig keeps optimize_qubit_ordering=True although {bad} is requested: its value is "
+                  "computed in MPS site order and permute_results does not un-permute it")
+            return 1
+        print("NOT-REPRODUCED: every site-order-dependent observable switches the reordering off")
+        return 0
     if "create_impl" in ob or "DMRGBackendImpl" in ob:
         import pulser
         from emu_mps import MPSConfig
